@@ -209,6 +209,26 @@ def check(ctx):
               "that value's presence, after the configuration load, with no later overwrite, before validate(); GenerateConfig::default() is used "
               "only when no configuration file is given",
               "a flag applied before the file is loaded (or a default applied over a file value) breaks flag > file > default")
+    # "presence" must mean "given on the command line": an Option-typed flag of the generate sub-command that clap fills with a default is
+    # always Some(..) and overrides the file value although the user did not pass it
+    tc = S.enums.get("TypegenCommands")
+    if tc is None:
+        r3.bad(V(r3.id, "<anchor>", "missing:TypegenCommands", "anchor not found"))
+    else:
+        for var in tc["variants"]:
+            if var["name"] != "Generate":
+                continue
+            for fld in var.get("fields", []):
+                toks = " ".join(a["tokens"] for a in fld.get("attrs", []) if a["path"] in (["arg"], ["clap"]))
+                dflt = re.search(r"\b(default_value(_t|_os|_ifs?|s)?|default_missing_value)\b", toks)
+                opt = re.sub(r"\s+", "", fld.get("ty", "")).startswith("Option<")
+                if opt and dflt:
+                    r3.bad(V(r3.id, "TypegenCommands::Generate", "flag-has-clap-default:%s" % fld["name"],
+                             "--%s is an Option with a clap %s: it is Some(..) even when absent, so the default overrides the value from the configuration file" % (fld["name"], dflt.group(1))))
+                elif opt:
+                    r3.ok("generate flag %s: absent = None" % fld["name"])
+                elif not opt and fld.get("ty", "").strip() != "bool" and dflt:
+                    r3.bad(V(r3.id, "TypegenCommands::Generate", "flag-has-clap-default:%s" % fld["name"], "flag %s carries a clap default and cannot express absence" % fld["name"]))
     rg = P.fns.get("cargo_tauri_typegen::run_generate")
     if rg is None:
         r3.bad(V(r3.id, "<anchor>", "missing:run_generate", "anchor not found"))
